@@ -56,6 +56,14 @@ THEOREMS = [
     "JanetModel.Props.C05.propagate_reraises_original",
     "JanetModel.Props.C05.raise_is_unwind",
     "JanetModel.Props.C05.defer_propagate_reraises_original",
+    "JanetModel.Props.C05.recursion_counter_restored",
+    "JanetModel.Props.C05.run_vm_counter_restored",
+    "JanetModel.Props.C05.resume_counter_restored",
+    "JanetModel.Props.C05.guard_refuses_only_resumable",
+    "JanetModel.Props.C05.status_monotone_guarded",
+    "JanetModel.Props.C05.guarded_is_unguarded_below",
+    "JanetModel.Props.C05.guard_clobbers_status_in_old_order",
+    "JanetModel.Fiber.stepG_res",
     "JanetModel.Props.C05.dyn_visibility",
     "JanetModel.Fiber.step_res",
     "JanetModel.Fiber.step_G",
@@ -98,12 +106,212 @@ def run_janet(janet, pre, items, timeout):
     return res, rc, err.decode(errors="replace")[-3000:]
 
 
+FIN = {0, 1, 4, 5, 6, 7, 8}
+
+
+def guard_r1(line):
+    """direct oracle on a guard-pass trace of the IMPLEMENTATION: statuses only move forward, a finished fiber keeps its
+    status, nothing returns to `new` — also when the recursion guard refuses a resume.  Returns a message or None."""
+    body, _, fin = line.partition(" | ")
+    snaps = []
+    for e in body.split(";") if body else []:
+        last = re.split(r"[ :]", e)[-1]
+        if re.fullmatch(r"[0-9a-f]+/-?\d+", last):
+            snaps.append(last.split("/")[0])
+    fp = fin.split(" ")
+    if len(fp) >= 4:
+        snaps.append(fp[3])
+    prev = None
+    for sn in snaps:
+        if prev is not None:
+            for i in range(min(len(prev), len(sn))):
+                a, b = int(prev[i], 16), int(sn[i], 16)
+                if a != b and (a in FIN or b == 14):
+                    return "fiber %d went from status %d to %d (snapshots %s -> %s)" % (i, a, b, prev, sn)
+        prev = sn
+    return None
+
+
+def guard_pass(ctx, exe, after, n, broken):
+    """(D') correspondence of the recursion-guard layer: random trees run by harness/C05/guardmain.c (vm.c recompiled with
+    JANET_RECURSION_GUARD lowered to `lim` levels below the tree's root; janet_vm.stackn logged with every event) and by
+    the model's guarded machine `stepG`; traces incl. the counter must be equal.  (E') statuses forward on the
+    implementation trace.  Returns coverage dict."""
+    cov = {"guard_trees": 0, "guard_trips_impl": 0, "guard_unmodelled_chain": 0, "guard_diffs": 0, "guard_max_depth": 0, "guard_limits": {}}
+    try:
+        binp = ctx.build.harness("asan", "c05guard", [os.path.join(VERIF, "harness", "C05", "guardmain.c")])
+        pre = prelude.prelude_guard(ctx.build.tree)
+    except (BuildError, prelude.PreludeError) as e:
+        broken.append("guard harness (vm.c wrapper TU with lowered JANET_RECURSION_GUARD): %s" % str(e)[-300:])
+        ctx.broken.append(broken[-1])
+        return cov
+    trees = []
+    for i in range(n):
+        r = ctx.rng.fork("gtree%d" % i)
+        g = gen.Gen(r, size=r.range(3, 18), maxdepth=r.range(2, 5))
+        t, fl = g.tree()
+        lim = [2, 3, 3, 4, 4, 5, 6, 8][r.below(8)]
+        trees.append((t, fl, lim))
+        cov["guard_limits"][str(lim)] = cov["guard_limits"].get(str(lim), 0) + 1
+    lines = [gen.model_line_g(t, fl, after, lim) for t, fl, lim in trees]
+    model_out = ctx.model(lines, exe=exe) if exe else None
+    srcs = [gen.janet_tree_g(i, t, fl, lim) for i, (t, fl, lim) in enumerate(trees)]
+    nb = 8 if n > 64 else 1
+
+    def work(k):
+        fd, path = tempfile.mkstemp(prefix="c05g-", suffix=".janet", dir="/var/tmp")
+        with os.fdopen(fd, "w") as f:
+            f.write(pre + "\n" + "\n".join(srcs[k::nb]) + "\n")
+        try:
+            rc, out, err = run_cmd([binp, "1024", path], timeout=900, env=ENV)
+        finally:
+            os.unlink(path)
+        res = {}
+        for l in out.decode(errors="replace").splitlines():
+            i, _, rest = l.partition(" ")
+            if i.isdigit():
+                res[int(i)] = rest
+        return k, res, rc, err.decode(errors="replace")[-2000:]
+    impl = {}
+    with cf.ThreadPoolExecutor(8) as ex:
+        for k, res, rc, err in ex.map(work, range(nb)):
+            impl.update(res)
+            want = len(srcs[k::nb])
+            if rc != 0 or len(res) != want:
+                missing = [i for i in range(k, n, nb) if i not in res]
+                ctx.violation("guard-pass-crash", {"kind": "crash", "janet": srcs[missing[0]] if missing else "", "rc": rc, "stderr": err,
+                                                   "prelude": "harness/C05/prelude.py prelude_guard", "harness": "harness/C05/guardmain.c"},
+                              what="guard pass: implementation crashed / sanitizer report on a fiber tree run with a lowered recursion guard (rc=%r)" % rc)
+    first_diff = None
+    for i, (t, fl, lim) in enumerate(trees):
+        if i not in impl:
+            continue
+        cov["guard_trees"] += 1
+        if "C_stack_recursed_too_deeply" in impl[i]:
+            cov["guard_trips_impl"] += 1
+        for mm in re.finditer(r"/(\d+)", impl[i]):
+            cov["guard_max_depth"] = max(cov["guard_max_depth"], int(mm.group(1)))
+        msg = guard_r1(impl[i])
+        if msg:
+            ctx.violation("guard-clobbers-status", {"kind": "protocol", "rule": "status_forward_at_guard", "janet": srcs[i], "impl_trace": impl[i],
+                                                    "limit": lim, "prelude": "harness/C05/prelude.py prelude_guard", "harness": "harness/C05/guardmain.c"},
+                          what="a fiber's status moved backwards / a finished fiber changed status when the recursion guard refused a resume: " + msg)
+        if model_out is None:
+            continue
+        mk = split_line(model_out[i])[1]
+        if mk == "unmodelled":
+            cov["guard_unmodelled_chain"] += 1
+            continue
+        if mk != "done":
+            broken.append("guard pass: model driver rejected / got stuck on tree %d: %s" % (i, model_out[i][-200:]))
+            continue
+        if split_line(impl[i])[0] != split_line(model_out[i])[0]:
+            cov["guard_diffs"] += 1
+            if first_diff is None:
+                first_diff = i
+    if first_diff is not None:
+        i = first_diff
+        broken.append("guard correspondence (counter / guard trips) model vs impl: %d of %d trees differ (first: limit %d)" % (cov["guard_diffs"], cov["guard_trees"], trees[i][2]))
+        ctx.broken.append(broken[-1])
+        cov["guard_first_diff"] = {"janet": srcs[i], "model_line": lines[i], "impl": split_line(impl[i])[0], "model": split_line(model_out[i])[0]}
+    return cov
+
+
+def sched_pass(ctx, exe, janet, n, broken):
+    """(D'') correspondence of the event-loop entry (Fiber/Sched.lean loopEnter): the tree's root fiber is run as a TASK
+    (`ev/go`), and after it stopped the loop re-schedules it (`ev/go`) or cancels it (`ev/cancel` = janet_cancel ->
+    janet_continue_signal with JANET_SIGNAL_ERROR) a few times; traces, final status and last value of the task must
+    equal the model's.  (E'') statuses forward + cleanup forms never run twice for one body fiber is covered by the
+    equality with the model plus guard_r1 on the implementation trace."""
+    cov = {"sched_trees": 0, "sched_diffs": 0, "sched_cancels": 0, "sched_resumes": 0, "sched_cancel_of_suspended": 0}
+    try:
+        pre = prelude.prelude_sched(ctx.build.tree)
+    except prelude.PreludeError as e:
+        broken.append("sched prelude: %s" % e)
+        return cov
+    trees = []
+    for i in range(n):
+        r = ctx.rng.fork("stree%d" % i)
+        g = gen.Gen(r, size=r.range(3, 18), maxdepth=r.range(2, 5))
+        t, fl = g.tree()
+        acts = []
+        for j in range(r.below(4)):
+            k = "c" if r.below(3) else "r"
+            acts.append((k, ["n", "i%d" % (900 + j), "kcx"][r.below(3)]))
+            cov["sched_cancels" if k == "c" else "sched_resumes"] += 1
+        trees.append((t, fl, acts))
+    lines = [gen.model_line_s(t, fl, acts) for t, fl, acts in trees]
+    model_out = ctx.model(lines, exe=exe) if exe else None
+    srcs = [gen.janet_tree_s(i, t, fl, acts) for i, (t, fl, acts) in enumerate(trees)]
+    # a task that signals event / interrupt (user9 / user8) to the loop is the loop's business: such trees are not run
+    skip = set(i for i in range(n) if model_out is not None and split_line(model_out[i])[1] in ("unmodelled", "hang"))
+    cov["sched_skipped_loop_signal"] = len(skip)
+    if model_out is None:
+        return cov
+    nb = 8 if n > 64 else 1
+
+    def work(k):
+        fd, path = tempfile.mkstemp(prefix="c05s-", suffix=".janet", dir="/var/tmp")
+        with os.fdopen(fd, "w") as f:
+            # tasks left suspended by a yield keep the event loop alive: leave explicitly
+            f.write(pre + "\n" + "\n".join(x for i, x in list(enumerate(srcs))[k::nb] if i not in skip) + "\n(flush)\n(os/exit 0)\n")
+        try:
+            rc, out, err = run_cmd([janet, path], timeout=300, env=ENV)
+        finally:
+            os.unlink(path)
+        res = {}
+        for l in out.decode(errors="replace").splitlines():
+            i, _, rest = l.partition(" ")
+            if i.isdigit():
+                res[int(i)] = rest
+        return k, res, rc, err.decode(errors="replace")[-2000:]
+    impl = {}
+    with cf.ThreadPoolExecutor(8) as ex:
+        for k, res, rc, err in ex.map(work, range(nb)):
+            impl.update(res)
+            if rc != 0 or len(res) != len([i for i in range(k, n, nb) if i not in skip]):
+                missing = [i for i in range(k, n, nb) if i not in res and i not in skip]
+                ctx.violation("sched-pass-crash", {"kind": "crash", "janet": srcs[missing[0]] if missing else "", "rc": rc, "stderr": err,
+                                                   "prelude": "harness/C05/prelude.py prelude_sched"},
+                              what="task pass: implementation crashed / sanitizer report on a fiber tree run as an event-loop task (rc=%r)" % rc)
+    first_diff = None
+    for i, (t, fl, acts) in enumerate(trees):
+        if i not in impl:
+            continue
+        cov["sched_trees"] += 1
+        msg = guard_r1(impl[i])
+        if msg:
+            ctx.violation("protocol:status_forward_sched", {"kind": "protocol", "rule": "status_forward", "janet": srcs[i], "impl_trace": impl[i],
+                                                            "prelude": "harness/C05/prelude.py prelude_sched"},
+                          what="a fiber's status moved backwards when the event loop re-entered / cancelled a task: " + msg)
+        if model_out is None:
+            continue
+        mk = split_line(model_out[i])[1]
+        if mk in ("unmodelled", "hang"):
+            continue
+        if mk != "done":
+            broken.append("task pass: model driver rejected / got stuck on tree %d: %s" % (i, model_out[i][-200:]))
+            continue
+        if split_line(impl[i])[0] != split_line(model_out[i])[0]:
+            cov["sched_diffs"] += 1
+            if first_diff is None:
+                first_diff = i
+    if first_diff is not None:
+        i = first_diff
+        broken.append("event-loop entry correspondence (ev/go, ev/cancel on a task) model vs impl: %d of %d trees differ" % (cov["sched_diffs"], cov["sched_trees"]))
+        ctx.broken.append(broken[-1])
+        cov["sched_first_diff"] = {"janet": srcs[i], "model_line": lines[i], "impl": split_line(impl[i])[0], "model": split_line(model_out[i])[0]}
+    return cov
+
+
 def run(ctx, only=None):
     quick = ctx.tier == "quick"
     broken = []
     # (A)
+    guard_after = True
     try:
         ctx.gen("Fiber.lean", gen_fiber.render(ctx.build.tree if ctx.build.boot() is None else ctx.build.tree))
+        guard_after = gen_fiber.extract(ctx.build.tree)["guard_after"]
     except ExtractError as e:
         broken.append("translator tools/gen/fiber.py: %s" % e)
         ctx.broken.append(broken[-1])
@@ -224,6 +432,10 @@ def run(ctx, only=None):
                     same = False
             if bad:
                 oracle_bad.append((i, bad))
+    gcov = guard_pass(ctx, exe, guard_after, (600 if quick else 6000) * (3 if broken else 1), broken) if pre is not None else {}
+    ctx.say("guard pass %r" % {k: v for k, v in gcov.items() if k != "guard_first_diff"})
+    scov = sched_pass(ctx, exe, janet, (600 if quick else 6000) * (3 if broken else 1), broken) if pre is not None else {}
+    ctx.say("task pass %r" % {k: v for k, v in scov.items() if k != "sched_first_diff"})
     # raw janet scenarios (regressions of past findings), run under ASan
     scen = 0
     if os.path.isdir(CORPUS):
@@ -251,6 +463,10 @@ def run(ctx, only=None):
         ctx.broken.append(broken[-1])
     if broken and not ctx.nviol:
         rep = {"kind": "broken-obligation", "broken": broken}
+        if gcov.get("guard_first_diff"):
+            rep.update(gcov["guard_first_diff"])
+        elif scov.get("sched_first_diff"):
+            rep.update(scov["sched_first_diff"])
         if diffs:
             i = diffs[0]
             t, fl = trees[i]
@@ -266,6 +482,8 @@ def run(ctx, only=None):
         "samples": samples,
         "trees": len(trees), "corpus_trees": ncorpus, "raw_scenarios": scen, "trace_entries": nev,
         "model_halt_kinds": halts, "correspondence_diffs": len(diffs), "crashes": len(crashes),
+        "guard_pass": {k: v for k, v in gcov.items() if k != "guard_first_diff"},
+        "task_pass": {k: v for k, v in scov.items() if k != "sched_first_diff"},
         "oracle_violations": len(oracle_bad), "oracle_adjacency_hits_model_agrees": [(i, b[1][:200]) for i, b in unconfirmed[:10]], "oracle_checks": stats, "generator_op_mix": opmix,
     }
     ctx.say("halts %r diffs %d oracle_bad %d stats %r" % (halts, len(diffs), len(oracle_bad), stats))
